@@ -434,6 +434,7 @@ def r3(ctx):
     CONTAINS = MG + "castle_rights::CastleRights::contains"
     eng = T.Engine(P, opaque=LOOKUPS | {KING_SQ, NEXT, LEGAL_KING, CONTAINS, "<chess_bitboard::BitBoardIter as core::iter::traits::iterator::Iterator>::all"})
     eng.trace_calls = {PUSH}
+    eng.unroll_arrays = False       # the per-side castling data is read as a table (one generic iteration), not side by side
     rets, loops, panics = eng.paths(key)
     site = P.body(key).get("def_span")
     board, turn, mask = ("obj", ("param", 1, "a1")), ("param", 2, "a2"), ("param", 3, "a3")
